@@ -45,7 +45,22 @@ def strategy_(draw, tier):
     kinds = kinds + ['Bpos', 'Bpos']
   old = draw(dags.dag(max_nodes=9, min_nodes=2, kinds=kinds, fns=_FNS, root_kinds=['B'],
                       bts=('Config',), p_alias=0.7, tags=True, allow_copyof=draw(st.booleans())))
-  mode = draw(st.sampled_from(['independent', 'edits', 'edits', 'edits', 'shared']))
+  mode = draw(st.sampled_from(['independent', 'edits', 'edits', 'edits', 'shared', 'moved_shared']))
+  if mode == 'moved_shared':
+    # S is shared by identity between old and new and moves to another argument; a new node of
+    # the same shape (small list child of equal length) takes its old place
+    n = draw(st.integers(1, 3))
+    fn_s = draw(st.sampled_from(['things:f2', 'things:Base']))
+    lst = lambda tag: {'k': 'list', 'items': [{'leaf': f'{tag}{i}'} for i in range(n)]}
+    slots = draw(st.permutations(['b', 'c', 'd', 'e']))
+    nodes = [lst('s'),
+             {'k': 'B', 'bt': 'Config', 'fn': {'kind': 'sym', 'name': fn_s}, 'pos': [],
+              'kw': {'x': {'leaf': 'uidS'}, 'child': 0}, 'edits': []},
+             {'k': 'B', 'bt': 'Config', 'fn': {'kind': 'sym', 'name': 'things:h1'}, 'pos': [],
+              'kw': {'a': {'leaf': 'uidR'}, slots[0]: 1}, 'edits': []}]
+    return {'old': {'nodes': nodes, 'root': 2}, 'mode': mode, 'from': slots[0], 'to': slots[1],
+            'n': n, 'fn_new': draw(st.sampled_from(['things:f2', 'things:Base', fn_s])),
+            'keep_alias': draw(st.booleans())}
   case = {'old': old, 'mode': mode}
   if draw(st.floats(0, 1)) < 0.25:
     for nd in old['nodes']:
@@ -240,43 +255,45 @@ def _diff_modifies_inside_tuple(diff, old):
   return False
 
 
-def check(case):
-  out = Outcome()
+def make_pair(case):
+  """Builds (old, new, applied edit kinds) for a case; raises RecursionError for cyclic results."""
   old, _ = dags.build(case['old'])
   mode = case['mode']
   applied = []
+  if mode == 'independent':
+    new, _ = dags.build(case['new'])
+  elif mode == 'moved_shared':
+    new = copy.copy(old)
+    sobj = old.__arguments__[case['from']]
+    setattr(new, case['to'], sobj)
+    repl = fdl.Config(things.resolve_symbol(case['fn_new']), x='uidNew',
+                      child=[f'n{i}' for i in range(case['n'])])
+    setattr(new, case['from'], repl)
+    applied = ['move', 'alias_create']
+  else:
+    new = copy.deepcopy(old) if mode == 'edits' else copy.copy(old)
+    for e in case['edits']:
+      try:
+        k = apply_edit(new, e, top_only=(mode != 'edits'))
+      except (TypeError, AttributeError, NotImplementedError):
+        k = None
+      if k:
+        applied.append(k)
+  C.canon(new)
+  list(C.walk(new))
+  return old, new, applied
+
+
+def check(case):
+  out = Outcome()
+  mode = case['mode']
   try:
-    if mode == 'independent':
-      new, _ = dags.build(case['new'])
-    elif mode == 'edits':
-      new = copy.deepcopy(old)
-      for e in case['edits']:
-        try:
-          k = apply_edit(new, e)
-        except (TypeError, AttributeError, NotImplementedError):
-          k = None
-        if k:
-          applied.append(k)
-    else:
-      new = copy.copy(old)
-      for e in case['edits']:
-        try:
-          k = apply_edit(new, e, top_only=True)
-        except (TypeError, AttributeError, NotImplementedError):
-          k = None
-        if k:
-          applied.append(k)
+    old, new, applied = make_pair(case)
   except RecursionError:
-    out.skipped = 'recursion'
+    out.skipped = 'recursion-or-cyclic-new'
     return out
   if type(old) is not type(new):
     out.skipped = 'root-types-differ'
-    return out
-  try:
-    C.canon(new)
-    list(C.walk(new))
-  except RecursionError:
-    out.skipped = 'cyclic-new'
     return out
   out.cls('mode_' + mode)
   aliasish = {'alias_create', 'alias_break', 'move', 'swap_compat', 'swap_drop'}
